@@ -123,6 +123,7 @@ def history(block, res):
     import subprocess
     import sys
     import tempfile
+    busy = rowlib.machine_busy()
     fwd = one_by_one(block)
     tmp = tempfile.mkdtemp(prefix="verif_c06h_")
     try:
@@ -140,6 +141,7 @@ def history(block, res):
         import shutil
         shutil.rmtree(tmp, ignore_errors=True)
     again = one_by_one(block)  # third history: after everything else was seen by this process
+    busy = busy or rowlib.machine_busy()
     res.count("history_blocks")
     for rx, a, b_, c in zip(block, fwd, rev, again):
         if tainted(a) or tainted(b_) or tainted(c):
@@ -153,6 +155,9 @@ def history(block, res):
         res.count("history_rows_compared")
         res.case(["history", rx])
         for name, other in (("fresh_process_reverse_order", b_), ("same_process_second_pass", c)):
+            if view(a) != view(other) and busy and "mcs-based" in (a.get("solved_by"), other.get("solved_by")):
+                res.count("mcs_row_differences_not_judged(busy machine)")
+                continue
             if view(a) != view(other):
                 res.viol("row_depends_on_processing_history", case={"reaction": rx}, other_history=name,
                          differs_in=[k for k in COLS if a.get(k) != other.get(k)],
@@ -244,6 +249,7 @@ def run_grouping(chosen, refs, perm, bs, nj, res, repeat=1):
     b, tr = rowlib.balancer(0, nj, trace=(nj == 1))
     inputs = [chosen[i] for i in perm]
     gdesc = {"perm": perm, "bs": bs, "n_jobs": nj, "repeat": repeat}
+    busy_before = rowlib.machine_busy()
     for _ in range(repeat):
         rows, stats, err = pipeline.run(b, inputs, batch_size=bs, tracer=tr)
     res.count("groupings_run")
@@ -253,9 +259,18 @@ def run_grouping(chosen, refs, perm, bs, nj, res, repeat=1):
         res.viol("grouped_run_lost_rows", error=err, n_out=None if rows is None else len(rows), **w)
         return
     ntaint = 0
+    busy = busy_before or rowlib.machine_busy()
+    if busy:
+        res.count("groupings_run_on_a_busy_machine")
     for pos, i in enumerate(perm):
         ref, got = refs[i], rows[pos]
         if tainted(ref) or tainted(got):
+            ntaint += 1
+            continue
+        if busy and (ref.get("solved_by") == "mcs-based" or got.get("solved_by") == "mcs-based") \
+                and view(ref) != view(got):
+            # an inner search may have run into its wall-clock budget without saying so (busy machine)
+            res.count("mcs_row_differences_not_judged(busy machine)")
             ntaint += 1
             continue
         res.ev()
